@@ -1,15 +1,229 @@
 (* C19 — building a URL from matched parameters leads back to the same match.
-   (work in progress: statements are added as they are proved) *)
-From Verif Require Import lib.Base lib.Str lib.PyIntDec model.RouteSpec model.RouteUrl proofs.C19_witness.
+
+   Only statements, each closed by [exact] of a lemma, + Print Assumptions.
+   Vocabulary:
+     model/RouteSpec.v (C01)   pat = list (Lit s | Wild filter?), match1 filt pat path,
+                               pattern_of / filters_of = Route.pattern_out / Route.filters
+     model/RouteUrl.v          Route.url as written (url, url_of_pat, url_of_match),
+                               make_filter's handler, make_params_dict, pyval, ures
+     proofs/C19_spec.v         url_spec (segment-wise builder), fill, next_lit, validates,
+                               lits_ok, names_ok, identity_fmt, int_or_plain, no_adjacent_int
+   kind / rx / fconv (which table entry a compiled filter is, the regex engine,
+   float conversion+printing) are universally quantified: nothing about Python's
+   re or float is assumed.  The int filter is concrete (lib/PyIntDec.v). *)
+From Verif Require Import lib.Base lib.Str lib.PyIntDec gen.Gen model.RouteSpec model.RouteUrl
+     proofs.C19_spec proofs.C19_pins proofs.C19_shape proofs.C19_identity proofs.C19_int proofs.C19_witness.
 Local Open Scope N_scope.
 
+(* ------------------------------------------------------------------ *)
+(* the constants of the source the model relies on *)
+
+Theorem C19_filter_table_pinned :
+  Gen.filter_table_src =
+  [([114; 101], [108; 97; 109; 98; 100; 97; 32; 99; 111; 110; 102; 58; 32; 40; 99; 111; 110; 102; 44; 32; 78; 111; 110; 101; 44; 32; 78; 111; 110; 101; 41]);
+   ([114; 101; 120], [95; 114; 101; 120]);
+   ([105; 110; 116], [108; 97; 109; 98; 100; 97; 32; 99; 111; 110; 102; 58; 32; 40; 39; 45; 63; 92; 92; 100; 43; 39; 44; 32; 105; 110; 116; 44; 32; 108; 97; 109; 98; 100; 97; 32; 120; 58; 32; 115; 116; 114; 40; 105; 110; 116; 40; 120; 41; 41; 41]);
+   ([102; 108; 111; 97; 116], [108; 97; 109; 98; 100; 97; 32; 99; 111; 110; 102; 58; 32; 40; 39; 45; 63; 92; 92; 100; 43; 40; 92; 92; 46; 92; 92; 100; 43; 41; 63; 39; 44; 32; 102; 108; 111; 97; 116; 44; 32; 108; 97; 109; 98; 100; 97; 32; 120; 58; 32; 115; 116; 114; 40; 102; 108; 111; 97; 116; 40; 120; 41; 41; 41]);
+   ([112; 97; 116; 104], [108; 97; 109; 98; 100; 97; 32; 99; 111; 110; 102; 58; 32; 40; 102; 39; 46; 43; 40; 63; 61; 123; 114; 101; 46; 101; 115; 99; 97; 112; 101; 40; 99; 111; 110; 102; 41; 125; 41; 39; 32; 105; 102; 32; 99; 111; 110; 102; 32; 101; 108; 115; 101; 32; 39; 46; 43; 36; 39; 44; 32; 78; 111; 110; 101; 44; 32; 78; 111; 110; 101; 41])]
+  /\ Gen.param_token = CR /\ Gen.path_sep = SLASH.
+Proof. exact (conj filter_table_pinned tokens_pinned). Qed.
+Print Assumptions C19_filter_table_pinned.
+
+(* ------------------------------------------------------------------ *)
+(* C19_url_shape: the slice bookkeeping of Route.url (cidx / clen / end over
+   pattern_out) computes the segment-wise builder [url_spec] — for every rule
+   (adjacent wildcards, adjacent / empty / leading / trailing literal chunks),
+   every list of names, all arguments, and every outcome including each error. *)
+Theorem C19_url_shape :
+  forall kind rx fconv (p : pat) (names : list str) (args : list pyval) (kw : list (str * pyval)),
+    lits_ok p = true ->
+    url_of_pat kind rx fconv p names args kw = url_spec kind rx fconv kw p names args.
+Proof. exact url_shape_lemma. Qed.
+Print Assumptions C19_url_shape.
+
+(* in the words of the property: a built URL is the rule's literal chunks,
+   verbatim and in order, with one text per wildcard in between *)
+Theorem C19_url_shape_literals :
+  forall kind rx fconv (p : pat) names args kw u,
+    lits_ok p = true ->
+    names <> [] ->
+    url_of_pat kind rx fconv p names args kw = UOk u ->
+    exists texts, length texts = nwild p /\ u = fill p texts.
+Proof. exact url_shape_literals_lemma. Qed.
+Print Assumptions C19_url_shape_literals.
+
+Example C19_url_shape_nonvacuous :
+  lits_ok pat_adj = true /\
+  url_of_pat k_int no_rx id_fconv pat_adj names_xy [] [([120], PStr [88]); ([121], PInt (-7)%Z)]
+  = UOk [97; 98; 88; 45; 55; 99; 100] /\
+  url_of_pat k_int no_rx id_fconv pat_adj names_xy [] [([120], PStr [88])] = UKeyError.
+Proof. exact shape_nonvacuous_lemma. Qed.
+
+(* ------------------------------------------------------------------ *)
+(* C19_identity_formatters: plain, re and path wildcards (no formatter).  For
+   EVERY regex engine: if the rule matches [path] with values [vs], the builder
+   run on those values (anonymous ones positionally, the others through
+   make_params_dict) returns [path] itself — unless one of its assertions
+   fails, and [validates] says exactly when: each filtered value, in front of
+   the literal text that follows it, must be matched by its own filter with a
+   positive length. *)
+Theorem C19_identity_formatters :
+  forall kind rx fconv (p : pat) (names : list str) (path : str) (vs : list value),
+    lits_ok p = true ->
+    identity_fmt kind p = true ->
+    names_ok p names ->
+    valid_str path ->
+    match1 (handler kind rx fconv) p path = Some vs ->
+    url_of_match kind rx fconv p names vs
+    = if validates kind rx fconv p vs then UOk path else UAssertionError.
+Proof. exact identity_formatters_lemma. Qed.
+Print Assumptions C19_identity_formatters.
+
+(* hence: whatever is built is matched again, with the same values *)
+Theorem C19_identity_roundtrip :
+  forall kind rx fconv (p : pat) names path vs u,
+    lits_ok p = true ->
+    identity_fmt kind p = true ->
+    names_ok p names ->
+    valid_str path ->
+    match1 (handler kind rx fconv) p path = Some vs ->
+    url_of_match kind rx fconv p names vs = UOk u ->
+    u = path /\ match1 (handler kind rx fconv) p u = Some vs.
+Proof. exact identity_roundtrip_lemma. Qed.
+Print Assumptions C19_identity_roundtrip.
+
+(* the same at the level of RadiRouter.resolve, which strips '/' from both ends
+   of the request path and of the url that is fed back *)
+Theorem C19_identity_roundtrip_resolve :
+  forall kind rx fconv (p : pat) names path0 vs u,
+    lits_ok p = true ->
+    identity_fmt kind p = true ->
+    names_ok p names ->
+    valid_str path0 ->
+    match1 (handler kind rx fconv) p (strip_slash path0) = Some vs ->
+    url_of_match kind rx fconv p names vs = UOk u ->
+    match1 (handler kind rx fconv) p (strip_slash u) = Some vs.
+Proof. exact identity_resolve_lemma. Qed.
+Print Assumptions C19_identity_roundtrip_resolve.
+
+(* rules with plain wildcards only: the builder cannot fail *)
+Theorem C19_plain_total :
+  forall kind rx fconv (p : pat) names path vs,
+    lits_ok p = true ->
+    plain_only p = true ->
+    names_ok p names ->
+    valid_str path ->
+    match1 (handler kind rx fconv) p path = Some vs ->
+    url_of_match kind rx fconv p names vs = UOk path.
+Proof. exact plain_total_lemma. Qed.
+Print Assumptions C19_plain_total.
+
+Example C19_identity_nonvacuous :
+  lits_ok pat_mixed = true /\
+  identity_fmt k_re pat_mixed = true /\
+  names_ok pat_mixed names_mixed /\
+  valid_str path_mixed /\
+  match1 (handler k_re lower_rx id_fconv) pat_mixed path_mixed = Some [[88]; [113]; [90]] /\
+  validates k_re lower_rx id_fconv pat_mixed [[88]; [113]; [90]] = true /\
+  url_of_match k_re lower_rx id_fconv pat_mixed names_mixed [[88]; [113]; [90]] = UOk path_mixed.
+Proof. exact identity_nonvacuous_lemma. Qed.
+
+(* ------------------------------------------------------------------ *)
+(* C19_int: the concrete int filter (mask -?\d+ over the ASCII digits, int,
+   str.int).  Rules made of literal text, plain wildcards and int wildcards in
+   which no int wildcard is directly followed by another int wildcard: the
+   builder never fails on matched values, prints the canonical decimal of each
+   int, and the rule matches the result with the same values.
+   (Python's \d and int() also accept non-ASCII decimal digits; the model's
+   int filter does not — TRUSTED.) *)
+Theorem C19_int :
+  forall kind rx fconv (p : pat) (names : list str) (path : str) (vs : list value),
+    lits_ok p = true ->
+    int_or_plain kind p = true ->
+    no_adjacent_int kind p = true ->
+    names_ok p names ->
+    valid_str path ->
+    match1 (handler kind rx fconv) p path = Some vs ->
+    exists u,
+      url_of_match kind rx fconv p names vs = UOk u /\
+      u = fill p (map text_of vs) /\
+      match1 (handler kind rx fconv) p u = Some vs.
+Proof. exact int_lemma. Qed.
+Print Assumptions C19_int.
+
+Example C19_int_nonvacuous :
+  lits_ok pat_ints = true /\
+  int_or_plain k_int pat_ints = true /\
+  no_adjacent_int k_int pat_ints = true /\
+  names_ok pat_ints names_ints /\
+  valid_str path_ints /\
+  match1 (handler k_int no_rx id_fconv) pat_ints path_ints = Some vs_ints /\
+  url_of_match k_int no_rx id_fconv pat_ints names_ints vs_ints = UOk url_ints /\
+  url_ints <> path_ints /\
+  match1 (handler k_int no_rx id_fconv) pat_ints url_ints = Some vs_ints.
+Proof. exact int_nonvacuous_lemma. Qed.
+
+(* ------------------------------------------------------------------ *)
+(* what is false of the code (findings F19-float, F19-empty, F19-minus-zero), with witnesses *)
+
+(* the guard of C19_int is needed: /<x:int><y:int> on "12-0" builds "120",
+   which the rule does not match *)
 Theorem C19_int_adjacent_minus_zero_refuted :
-  let filt := handler k_int no_rx no_fconv in
+  let filt := handler k_int no_rx id_fconv in
   let p := [49; 50; 45; 48] in
   exists vs u,
     match1 filt pat_int_int p = Some vs /\
-    url_of_match k_int no_rx no_fconv pat_int_int names_xy vs = UOk u /\
+    url_of_match k_int no_rx id_fconv pat_int_int names_xy vs = UOk u /\
     u = [49; 50; 48] /\
     match1 filt pat_int_int u = None.
 Proof. exact int_adjacent_witness. Qed.
 Print Assumptions C19_int_adjacent_minus_zero_refuted.
+
+(* float: with a regex engine for -?\d+(\.\d+)? and any float printer that
+   maps "0.00001" to "1e-05" (as Python's does), /f/<x:float> on "f/0.00001"
+   builds "f/1e-05", which the rule does not match *)
+Theorem C19_float_refuted :
+  let filt := handler k_float float_rx py_fconv in
+  let p := [102; 47] ++ s_0_00001 in
+  exists vs u,
+    match1 filt pat_f p = Some vs /\
+    url_of_match k_float float_rx py_fconv pat_f names_x vs = UOk u /\
+    u = [102; 47] ++ s_1e_05 /\
+    match1 filt pat_f u = None.
+Proof. exact float_exponent_witness. Qed.
+Print Assumptions C19_float_refuted.
+
+(* float: a printer that answers "inf" makes the builder assert *)
+Theorem C19_float_inf_refuted :
+  let filt := handler k_float float_rx py_fconv in
+  let p := [102; 47] ++ s_big in
+  exists vs,
+    match1 filt pat_f p = Some vs /\
+    url_of_match k_float float_rx py_fconv pat_f names_x vs = UAssertionError.
+Proof. exact float_inf_witness. Qed.
+Print Assumptions C19_float_inf_refuted.
+
+(* a re filter that matches the empty string: /<x.re(a-star)>z matches "z" with
+   x = "", and the builder rejects that value *)
+Theorem C19_empty_match_refuted :
+  let filt := handler k_re a_star_rx id_fconv in
+  exists vs,
+    match1 filt pat_az [122] = Some vs /\
+    vs = [[]] /\
+    url_of_match k_re a_star_rx id_fconv pat_az names_x vs = UAssertionError.
+Proof. exact empty_match_witness. Qed.
+Print Assumptions C19_empty_match_refuted.
+
+(* record of the repaired defect F19path: /p/<x:path>/e on "p/a/b/e".  With a
+   look-ahead mask .+(?=/e) the builder (which validates the value in front of
+   the literal that follows) returns the path; the value standing alone — what
+   the assertion looked at before the repair — is rejected by the filter. *)
+Theorem C19_F19path_value_alone_refuted :
+  let filt := handler k_path path_rx id_fconv in
+  exists vs,
+    match1 filt pat_p p_a_b_e = Some vs /\
+    vs = [[97; 47; 98]] /\
+    url_of_match k_path path_rx id_fconv pat_p names_x vs = UOk p_a_b_e /\
+    validate k_path path_rx id_fconv 0%nat (PStr [97; 47; 98]) [] = Some UAssertionError.
+Proof. exact path_lookahead_witness. Qed.
+Print Assumptions C19_F19path_value_alone_refuted.
